@@ -240,8 +240,40 @@ class _Gen:
             out += "  }\n"
         return out
 
+    def expr(self, g, depth):
+        """A random integer expression over in0[g] (0..9), in1[g] (0..6), g and constants whose value is defined in C++
+        (no division by zero, no overflow, shifts by 0..2) - what matters is that every backend re-prints it with the
+        meaning the source has: precedence, associativity, unary operators, ternaries."""
+        r = self.r
+        if depth <= 0 or r.random() < 0.25:
+            return r.choice(["in0[%s]" % g, "in1[%s]" % g, str(g), str(r.randint(0, 9)), "in0[%s]" % g])
+        a, b = self.expr(g, depth - 1), self.expr(g, depth - 1)
+        x = r.random()
+        if x < 0.18:
+            return "%s - (%s - %s)" % (a, b, self.expr(g, depth - 1))
+        if x < 0.30:
+            return "(%s + %s) * %s" % (a, b, r.choice(["2", "3", "in1[%s]" % g]))
+        if x < 0.40:
+            return "%s / (((%s) & 3) + 1)" % (a, b)
+        if x < 0.50:
+            return "%s %% (((%s) & 3) + 2)" % (a, b)
+        if x < 0.58:
+            return "-(%s) - -(%s)" % (a, b)
+        if x < 0.66:
+            return "(((%s) & 1023) << ((%s) & 3)) >> 1" % (a, b)
+        if x < 0.74:
+            return "((%s) & 7) | ((%s) ^ 5)" % (a, b)
+        if x < 0.84:
+            return "((%s) > (%s) ? (%s) : (%s) - 1)" % (a, b, a, b)
+        if x < 0.92:
+            return "!(%s) + ~(%s) %% 5" % (a, b)
+        return "%s * -%s + (%s < %s)" % (a, r.choice(["2", "3"]), a, b)
+
     def val(self, g):
         r = self.r
+        if r.random() < 0.25:
+            self.features.add("expression")
+            return "(" + self.expr(g, 2) + ")"
         if self.hostvar and r.random() < 0.3:
             self.features.add("host-decl")
             return "(in0[%s] + m)" % g
